@@ -81,7 +81,7 @@ def obligations():
             a, b, c = g[2]
             okg = (a[:2] == ("cmp", ("Gt",)) and a[2][0][:1] == ("loopvar",) and a[2][1] == fx.C(0)
                    and b[:2] == ("cmp", ("Lt",)) and b[2][0][:1] == ("loopvar",) and b[2][0] != a[2][0]
-                   and c[:2] == ("cmp", ("NotEq",)) and c[2][0][:1] == ("callres",) and c[2][0][2] == "len" and c[2][1] == fx.C(0))
+                   and c[0] == "cmp" and c[1] in (("NotEq",), ("Gt",)) and c[2][0][:1] == ("callres",) and c[2][0][2] == "len" and c[2][1] == fx.C(0))
             if okg:
                 ml = b[2][1]
                 # the leaf budget is the user's max_leaves, and the NUMBER OF SAMPLES when none is given (nothing else caps the tree)
